@@ -104,8 +104,9 @@ CLAIMS = {
                  "dispatch table regenerated from the source), lineItems_rawEquiv, and media_presentation / master_presentation - two texts whose line items "
                  "classify into typed-line lists that agree up to comment / VERSION lines and swaps of independent lines give the same result through the "
                  "string-level entry points. known_names_match ties the 'known attribute' predicates to the attribute names matched in the current source "
-                 "(Generated/AttrNames.lean). EXTINF / BYTERANGE value syntax and the attributes of the two STREAM-INF tags at line level are outside these "
-                 "theorems (run-validated). Tie + oracle: every base text (fixtures, generated media and "
+                 "(Generated/AttrNames.lean). iframe_attr_layout / classify_iframe_layout / streamInf_attr_layout: the same for both STREAM-INF tags, the second over "
+                 "the tag line plus the URI line behind it. The EXTINF / BYTERANGE value syntax (no attribute list) is outside these theorems "
+                 "(run-validated). Tie + oracle: every base text (fixtures, generated media and "
                  "master playlists) and 11 kinds of transformations written in Python from RFC 8216 section 4 (singly and composed) must parse identically on library "
                  "and model, and each transformed text must parse to the observation of its original on the library; unknown-tag insertion must change the unknown list only."),
         "design_ref": "DESIGN.md §7 C12",
